@@ -284,7 +284,7 @@ RULES = [
 
 
 from . import shared
-RULES = RULES + shared.bundle('C13', ['norm', 'values'], ['modelinfo'])
+RULES = RULES + shared.bundle('C13', ['norm', 'values', 'carry', 'gate', 'restart', 'loops', 'driver'], ['modelinfo'])
 
 
 def run(tier="quick", replay=None):
